@@ -423,3 +423,26 @@ func TestF17ExistingPermsKeptWithoutP(t *testing.T) {
 		t.Errorf("without -p the up-to-date destination file was chmodded to %o, want 600", st.Mode().Perm())
 	}
 }
+
+// F19: a delta transfer whose unmatched tail is larger than the sender's
+// default read window, on a file whose size is not a multiple of 1024.
+func TestF19DeltaTailLargerThanWindow(t *testing.T) {
+	for _, size := range []int{1<<20 + 1, 3<<20 + 777} {
+		tmp := t.TempDir()
+		src, dst := filepath.Join(tmp, "src"), filepath.Join(tmp, "dst")
+		data := make([]byte, size)
+		x := uint32(size)
+		for i := range data {
+			x = x*1664525 + 1013904223
+			data[i] = byte(x >> 24)
+		}
+		write(t, filepath.Join(src, "f"), string(data))
+		write(t, filepath.Join(dst, "f"), string(data[:size*2/3]))
+		srv := rsynctest.New(t, rsynctest.InteropModule(src))
+		rsynctest.Run(t, "gokr-rsync", "--gokr.dont_restrict", "-rI", "rsync://localhost:"+srv.Port+"/interop/", dst)
+		got, _ := os.ReadFile(filepath.Join(dst, "f"))
+		if !bytes.Equal(got, data) {
+			t.Errorf("size %d: content differs (got %d bytes)", size, len(got))
+		}
+	}
+}
